@@ -36,7 +36,8 @@ Proof.
   induction steps as [|s rest IH]; intros g ws Hg Hws Ha; [reflexivity|].
   cbn [seq_accept] in Ha. unfold model_step in Ha.
   destruct (do_op c g (st_op s) (st_faults s)) as [[g' evs] r] eqn:Ed.
-  apply andb_prop in Ha as [Ha Hrest]. apply andb_prop in Ha as [Hmem Heq].
+  apply andb_prop in Ha as [Ha Hrest]. apply andb_prop in Ha as [Hmem Heq]. apply andb_prop in Hmem as [Hmem Hpos]. apply Z.ltb_lt in Hpos.
+  pose proof (do_op_no_panic _ _ _ _ _ _ _ Hg Hpos Ed) as Hnp.
   destruct (sobs_match_eq _ _ _ Heq) as (He & Hwk & Hca & Hst & Hres). cbn [ob_events ob_res ob_worker ob_cache ob_store] in He, Hwk, Hca, Hst, Hres.
   assert (Hwk' : forall a, ob_worker (st_obs s) = Some a -> a = loc_of c (key_of (st_op s))).
   { intros a Ha'. rewrite Hwk in Ha'. unfold snap_worker in Ha'. destruct l; [discriminate|].
@@ -52,6 +53,7 @@ Proof.
   repeat (apply andb_true_intro; split).
   - unfold worker_ok. destruct (ob_worker (st_obs s)) as [a|] eqn:Ea; [|reflexivity].
     destruct (lookup k ws) as [b|] eqn:Eb; [|reflexivity]. rewrite (Hwk' a eq_refl), (Hws k b Eb). apply Z.eqb_refl.
+  - destruct Hres as [-> | ->]; [|reflexivity]. destruct r; try reflexivity. congruence.
   - apply forallb_project. apply (Forall_forallb _ _ _ (fun e H => proj2 (Z.eqb_eq _ _) H) B3).
   - apply forallb_forall. intros x Hx. destruct (x =? k) eqn:E; [reflexivity|]. apply Z.eqb_neq in E. cbn [orb].
     unfold snap_store. rewrite !at_key_map by exact Hx. rewrite (B2 x E). apply oz_eqb_refl.
